@@ -210,19 +210,28 @@ func (c *cluster) run(q *queryJ) (obsJ, string) {
 	if !ok {
 		return obsJ{Err: "not a query", Code: 3}, "parse"
 	}
-	c.dropped, c.log, c.deliv = nil, nil, nil
-	c.held = map[string]*pending{}
-	stop := make(chan struct{})
-	done := make(chan struct{})
-	go func() { c.pump(stop); close(done) }()
-	root := c.brokers[0]
-	sctx, cancel := context.WithTimeout(context.Background(), c.timeout)
-	defer cancel()
-	rs, err := query.MetricDataSearch(sctx, &models.ExecuteParam{Database: logicalDB, SQL: q.SQL}, stq,
-		&query.SearchMgr{CurNode: *root.node, Choose: &stateMgr{c: c}, TaskMgr: root.taskMgr,
-			TransportMgr: &transport{c: c, self: root.name}, Timeout: c.timeout})
-	close(stop)
-	<-done
+	search := func(timeout time.Duration) (interface{}, error) {
+		c.dropped, c.log, c.deliv = nil, nil, nil
+		c.held = map[string]*pending{}
+		stop := make(chan struct{})
+		done := make(chan struct{})
+		go func() { c.pump(stop); close(done) }()
+		root := c.brokers[0]
+		sctx, cancel := context.WithTimeout(context.Background(), timeout)
+		defer cancel()
+		rs, err := query.MetricDataSearch(sctx, &models.ExecuteParam{Database: logicalDB, SQL: q.SQL}, stq,
+			&query.SearchMgr{CurNode: *root.node, Choose: &stateMgr{c: c}, TaskMgr: root.taskMgr,
+				TransportMgr: &transport{c: c, self: root.name}, Timeout: timeout})
+		close(stop)
+		<-done
+		return rs, err
+	}
+	rs, err := search(c.timeout)
+	if err != nil && strings.Contains(err.Error(), "timeout") && c.timeout < 5*time.Second {
+		// the short deadline of the layouts that are expected to hang may be missed on a loaded machine: a statement
+		// that really hangs does so again
+		rs, err = search(4 * c.timeout)
+	}
 	var o obsJ
 	if err != nil {
 		o.Err = err.Error()
